@@ -494,3 +494,97 @@ Proof.
   rewrite cmp_int_val by assumption. reflexivity.
 Qed.
 
+
+(** * Cuts fall on UTF-8 character boundaries *)
+
+(** Well-formed UTF-8 (the sequences accepted by [core::str::from_utf8]). *)
+Inductive utf8_valid : bytes -> Prop :=
+| U_nil : utf8_valid []
+| U_1 : forall b r, b < 128 -> utf8_valid r -> utf8_valid (b :: r)
+| U_2 : forall b0 b1 r, 194 <= b0 <= 223 -> is_cont b1 = true -> utf8_valid r ->
+    utf8_valid (b0 :: b1 :: r)
+| U_3 : forall b0 b1 b2 r, 224 <= b0 <= 239 -> is_cont b1 = true -> is_cont b2 = true ->
+    (b0 = 224 -> 160 <= b1) -> (b0 = 237 -> b1 <= 159) -> utf8_valid r ->
+    utf8_valid (b0 :: b1 :: b2 :: r)
+| U_4 : forall b0 b1 b2 b3 r, 240 <= b0 <= 244 ->
+    is_cont b1 = true -> is_cont b2 = true -> is_cont b3 = true ->
+    (b0 = 240 -> 144 <= b1) -> (b0 = 244 -> b1 <= 143) -> utf8_valid r ->
+    utf8_valid (b0 :: b1 :: b2 :: b3 :: r).
+
+Lemma utf8_valid_app : forall p t, utf8_valid p -> utf8_valid t -> utf8_valid (p ++ t).
+Proof.
+  intros p t Hp Ht. induction Hp; simpl; [exact Ht| | | |].
+  - apply U_1; assumption.
+  - apply U_2; assumption.
+  - apply U_3; assumption.
+  - apply U_4; assumption.
+Qed.
+
+Lemma glue_glue : forall k a b ts, glue (k, a) (glue (k, b) ts) = glue (k, a ++ b) ts.
+Proof.
+  intros k a b [|[k' t'] r]; simpl.
+  - rewrite Bool.eqb_reflx. reflexivity.
+  - destruct (Bool.eqb k' k) eqn:E; simpl.
+    + rewrite Bool.eqb_reflx, app_assoc. reflexivity.
+    + rewrite Bool.eqb_reflx. reflexivity.
+Qed.
+
+(** A non-empty run of non-digit bytes in front of [r] goes into one token. *)
+Lemma tok_r_nondigit_prefix : forall p r, p <> [] -> Forall (fun c => is_digit c = false) p ->
+  tok_r (p ++ r) = glue (false, p) (tok_r r).
+Proof.
+  induction p as [|c p IH]; intros r Hne Hp; [congruence|].
+  inversion Hp as [|? ? Hc Hp']; subst. simpl. rewrite Hc.
+  destruct p as [|c' p'].
+  - reflexivity.
+  - rewrite IH by (assumption || discriminate). apply glue_glue.
+Qed.
+
+Definition token_valid (t : token) : Prop := utf8_valid (snd t).
+
+Lemma glue_valid : forall k p ts, utf8_valid p -> Forall token_valid ts ->
+  Forall token_valid (glue (k, p) ts).
+Proof.
+  intros k p [|[k' t'] r] Hp Hts; simpl.
+  - constructor; [exact Hp|constructor].
+  - inversion Hts as [|? ? Ht Hr]; subst. destruct (Bool.eqb k' k).
+    + constructor; [|exact Hr]. unfold token_valid. simpl. apply utf8_valid_app; assumption.
+    + constructor; [exact Hp|exact Hts].
+Qed.
+
+Lemma high_not_digit : forall b, 128 <= b -> is_digit b = false.
+Proof. intros b H. unfold is_digit. apply Bool.andb_false_iff. right. apply N.leb_gt. lia. Qed.
+
+Lemma is_cont_high : forall b, is_cont b = true -> 128 <= b.
+Proof. intros b H. unfold is_cont in H. apply Bool.andb_true_iff in H. destruct H as [H _]. apply N.leb_le in H. exact H. Qed.
+
+(** On valid UTF-8 every token the tokeniser cuts out is itself valid UTF-8:
+    the [get_unchecked] splits never fall inside a multi-byte character (a cut
+    is always next to an ASCII digit). *)
+Lemma tokens_valid_utf8 : forall s, utf8_valid s -> Forall token_valid (tokenize s).
+Proof.
+  intros s H. rewrite tokenize_tok_r. induction H.
+  - constructor.
+  - simpl. apply glue_valid; [|exact IHutf8_valid]. apply U_1; [assumption|constructor].
+  - change (b0 :: b1 :: r) with ([b0; b1] ++ r).
+    rewrite tok_r_nondigit_prefix.
+    + apply glue_valid; [|exact IHutf8_valid]. apply U_2; [assumption|assumption|constructor].
+    + discriminate.
+    + repeat constructor; apply high_not_digit; [lia|apply is_cont_high; assumption].
+  - change (b0 :: b1 :: b2 :: r) with ([b0; b1; b2] ++ r).
+    rewrite tok_r_nondigit_prefix.
+    + apply glue_valid; [|exact IHutf8_valid]. apply U_3; try assumption. constructor.
+    + discriminate.
+    + repeat constructor; apply high_not_digit; try lia; apply is_cont_high; assumption.
+  - change (b0 :: b1 :: b2 :: b3 :: r) with ([b0; b1; b2; b3] ++ r).
+    rewrite tok_r_nondigit_prefix.
+    + apply glue_valid; [|exact IHutf8_valid]. apply U_4; try assumption. constructor.
+    + discriminate.
+    + repeat constructor; apply high_not_digit; try lia; apply is_cont_high; assumption.
+Qed.
+
+(** Satisfiability of the hypothesis by a non-trivial value: "a1é2" *)
+Example utf8_valid_example : utf8_valid [97; 49; 195; 169; 50].
+Proof.
+  apply U_1; [lia|]. apply U_1; [lia|]. apply U_2; [lia|reflexivity|]. apply U_1; [lia|]. constructor.
+Qed.
